@@ -950,6 +950,16 @@ theorem generated_fromCtyTuple_eq (S : Sched) (etys : List Ty) (cs : List Payloa
       GoctyFnsTie.er (fromCtyP S [] (.tuple etys) (.seq cs) T) :=
   D18bTie.fromCtyTuple_tie S etys cs T hd hc hwf
 
+/-- `fromCtyObject` as written in the source is the object case of the model (unmarked object; `S 0` = the order in which
+Go visits this object's attributes, `S.next` the schedule below).  Only the dispatch on the target's kind and the composition
+"missing-attribute check, then the attribute loop" are translated here: the two loops range over Go maps and are PINNED
+REGIONS whose meaning is written in the model's own vocabulary (an edit inside them fails closed instead of failing a proof) -/
+theorem generated_fromCtyObject_eq (S : Sched) (names : List String) (atys : List Ty) (opt : List Bool) (cs : List Payload)
+    (T : GoTy) (hd : T.depth = 0) (hc : T.isCval = false) :
+    GoctyFnsTie.er (Generated.GoctyShapeFns.fromCtyObject (D18bTie.recS S.next) (S 0) ⟨.object names atys opt, .smap names cs⟩ T
+      (zeroVal T)) = GoctyFnsTie.er (fromCtyP S [] (.object names atys opt) (.smap names cs) T) :=
+  D18bTie.fromCtyObject_tie S names atys opt cs T hd hc
+
 /-- `array_length_rule`, about the translated source and for ANY behaviour of the recursive call: in out.go the
 `length != target.Len()` tests of `fromCtyList` and `fromCtySet` come before the element loops, and `fromCtyTuple` compares
 the field count first — a wrong length is refused before a single member is looked at -/
